@@ -65,7 +65,22 @@ class Stats:
         self.states = len(self.fingerprints)
 
 
+_KEY_CACHE: dict[Any, str] = {}
+
+
 def _key(label: Any) -> str:
+    """Canonical text of a label (JSON); memoised for the common str / flat-list labels."""
+    if isinstance(label, str):
+        k = _KEY_CACHE.get(label)
+        if k is None:
+            k = _KEY_CACHE[label] = json.dumps(label)
+        return k
+    if isinstance(label, list) and all(isinstance(x, (str, int)) for x in label):
+        t = tuple(label)
+        k = _KEY_CACHE.get(t)
+        if k is None:
+            k = _KEY_CACHE[t] = json.dumps(label, sort_keys=True, default=str)
+        return k
     return json.dumps(label, sort_keys=True, default=str)
 
 
@@ -111,13 +126,13 @@ class Explorer:
                 en = h.enabled(w)
                 if i < len(prefix):
                     if prefix_enabled is not None and i < len(prefix_enabled):
-                        if [_key(x) for x in en] != prefix_enabled[i]:
+                        if en != prefix_enabled[i]:
                             raise HarnessError(
                                 "nondeterminism during prefix replay at step "
-                                f"{i}: enabled {[_key(x) for x in en]} != recorded {prefix_enabled[i]}"
+                                f"{i}: enabled {en!r} != recorded {prefix_enabled[i]!r}"
                             )
                     choice = prefix[i]
-                    if _key(choice) not in [_key(x) for x in en]:
+                    if choice not in en:
                         raise HarnessError(f"replay: label {choice!r} not enabled at step {i}: {en!r}")
                 else:
                     # default continuation: first label we can afford
@@ -203,7 +218,7 @@ class Explorer:
                     break
                 # do not extend below a violating prefix
             labels = tr["labels"]
-            en_keys = [[_key(x) for x in en] for en in tr["enabled"]]
+            en_keys = tr["enabled"]  # the label lists themselves (JSON-able values, compared by equality)
             h = self.h
             # branch at every position not fixed by the prefix
             new: list[tuple[list[Any], list[list[str]] | None]] = []
@@ -215,11 +230,11 @@ class Explorer:
                     break
                 if i > limit:
                     break
-                taken = _key(labels[i]) if i < len(labels) else None
+                has_taken = i < len(labels)
+                taken = labels[i] if has_taken else None
                 before = tr["cost_before"][i] if i < len(tr["cost_before"]) else sum(tr["costs"])
                 for cand in tr["enabled"][i]:
-                    k = _key(cand)
-                    if k == taken:
+                    if has_taken and cand == taken:
                         continue
                     c = h.cost(cand)
                     if before + c > self.bound:
